@@ -41,6 +41,11 @@ def _isnum(b):
     return isinstance(b, (int, float, np.integer, np.floating))
 
 
+def _short_binary(fr, maxden=4096):
+    d = Fraction(fr).denominator
+    return d & (d - 1) == 0 and d <= maxden
+
+
 def _ulp4(v):
     return Fraction(4 * math.ulp(float(v))) if v else Fraction(0)
 
@@ -122,11 +127,14 @@ class OpMonitors:
         if op == '__mod__':
             k = abs(Fraction(float(b)))
             n = type(a).__name__
-            fdec = (a.degree + a.minute / 60 + a.second / 3600) if n == 'DMSAngle' else (a.degree + a.minute / 60)
-            exact_operand = Fraction(fdec) == abs(da)          # the decimal-degree value of the operand is exact in floats
+            # is the decimal-degree value of the operand exact under ANY reasonable float formulation (sum of quotients,
+            # one division of the sum, ...)?  Only when every field's share is itself a short binary fraction: whole
+            # degrees, 15/30/45 minutes, 7.5 minutes, 56.25 seconds ...  (A value that merely happens to be representable,
+            # such as 46 44 08.608644179898874, is computed a last-bit off by some correct formulations.)
+            exact_operand = _short_binary(Fraction(a.minute) / 60) and (n != 'DMSAngle' or _short_binary(Fraction(a.second) / 3600))
             if (da / k).denominator != 1 or not exact_operand:
                 # next to (not on) a multiple of the modulus the float remainder may legitimately come out just below the
-                # modulus or just above zero; an operand that IS a multiple (exactly representable) must give zero
+                # modulus or just above zero; an operand that IS a multiple (robustly exact, see above) must give zero
                 err = min(err, abs(err - k))
         ctx.maxi('C12.op_err_arcsec', float(err * 3600))
         if err > tol:
@@ -210,21 +218,22 @@ class OpMonitors:
         mon = self
         for cname in CLASSES:
             cls = getattr(A, cname)
+            # the operator a class answers with may be its own or come from a shared private base of the tree
             for op in ('__add__', '__radd__', '__sub__', '__rsub__', '__mul__', '__rmul__', '__truediv__', '__mod__'):
-                if op in cls.__dict__:
+                if core.repo_method(cls, op)[0] is not None:
                     self._wrap2(cls, cname, op, self.judge_arith)
             for op in ('__neg__', '__abs__'):
-                if op in cls.__dict__:
+                if core.repo_method(cls, op)[0] is not None:
                     self._wrap1(cls, cname, op)
             for op in ('__eq__', '__ne__', '__lt__', '__gt__'):
-                if op in cls.__dict__:
+                if core.repo_method(cls, op)[0] is not None:
                     self._wrap2(cls, cname, op, self.judge_cmp)
-            if '__round__' in cls.__dict__:
+            if core.repo_method(cls, '__round__')[0] is not None:
                 self._wrap_round(cls, cname)
         return self
 
     def _wrap2(self, cls, cname, op, judge):
-        fn = cls.__dict__[op]
+        fn, own = core.repo_method(cls, op)
         mon = self
 
         def wrapper(self_, other):
@@ -241,10 +250,10 @@ class OpMonitors:
             return r
         wrapper.__name__ = op
         setattr(cls, op, wrapper)
-        self.saved.append((cls, op, fn))
+        self.saved.append((cls, op, fn, own))
 
     def _wrap1(self, cls, cname, op):
-        fn = cls.__dict__[op]
+        fn, own = core.repo_method(cls, op)
         mon = self
 
         def wrapper(self_):
@@ -261,10 +270,10 @@ class OpMonitors:
             return r
         wrapper.__name__ = op
         setattr(cls, op, wrapper)
-        self.saved.append((cls, op, fn))
+        self.saved.append((cls, op, fn, own))
 
     def _wrap_round(self, cls, cname):
-        fn = cls.__dict__['__round__']
+        fn, own = core.repo_method(cls, '__round__')
         mon = self
 
         def wrapper(self_, n=None):
@@ -281,11 +290,11 @@ class OpMonitors:
             return r
         wrapper.__name__ = '__round__'
         setattr(cls, '__round__', wrapper)
-        self.saved.append((cls, '__round__', fn))
+        self.saved.append((cls, '__round__', fn, own))
 
     def uninstall(self):
-        for cls, op, fn in self.saved:
-            setattr(cls, op, fn)
+        for cls, op, fn, own in self.saved:
+            core.restore_method(cls, op, fn, own)
         self.saved = []
 
 
